@@ -204,8 +204,10 @@ def known_class(pid, case, lines):
             for p in in_packets(e) or []:
                 if p[0] >> 4 == 3 and len(set(rx_info(p)["subids"])) >= 2:
                     return "two_or_more_subids"
-    if pid == "C15" and m.get("k2"):
-        return "qos2_dropped_in_phase1"
+    if pid == "C15":
+        msg = CHECKS["C15"](case, lines) if "C15" in CHECKS else None
+        if msg and msg.startswith("k2:"):
+            return "qos2_dropped_in_phase1"
     return None
 
 
